@@ -172,6 +172,7 @@ Judge(rec) ==
       "bookkeeping error and error shown in the table model disagree",
   Chk(~rec.writerPanic /\ \A n \in DOMAIN rec.visible : rec.visible[n].text, "visible", "rejection message missing from the text output",
   Chk(\A n \in DOMAIN rec.visible : rec.visible[n].csv, "visible", "rejection message missing from the CSV output",
+  Chk(\A n \in DOMAIN rec.visible : rec.visible[n].dir, "visible", "rejection message missing from the files written with --csv-output-dir (and from the error stream)",
   \* C06 / C04: totals
   LET b1 == FirstBadIn(DOMAIN F.secs, LAMBDA n : ~Clean(F.secs[n]) \/ TableTotalsOK(F.secs[n])) IN
   Chk(b1 = 0, "totals", "yearly figures / total of a security do not add up: " \o F.secs[IF b1 = 0 THEN 1 ELSE b1].sec,
@@ -193,7 +194,7 @@ Judge(rec) ==
   Chk(TotalTableOK(E, F.costs.total), "costs", "total-costs table differs from the maximum cost held per day",
   Chk(YearlyTableOK(E, F.costs.yearly), "costs", "yearly max-costs table differs",
   Chk(Len(F.costs.total.notes) = IgnoredCount(rec), "costs", "ignored transactions of other affiliates are not all listed",
-  OkV))))))))))))))))
+  OkV)))))))))))))))))
 
 Init == l = 1 /\ tally = [ok |-> 0, fail |-> 0, ambig |-> 0, skip |-> 0, steps |-> 0]
 Next ==
